@@ -275,6 +275,7 @@ class Downloader(ABC):
                 target_path = self._settings.target_root_path / source_path
 
                 tries = 10
+                path_error = error
                 while tries > 0:
                     async with (
                         self._settings.semaphore,
@@ -288,6 +289,9 @@ class Downloader(ABC):
 
                         if response.missing:
                             if source_file.ignore_errors or source_file.ignore_missing:
+                                # The server gave a definite answer: earlier
+                                # transient errors of this path no longer matter
+                                error = path_error
                                 break
 
                             await retry(
